@@ -18,27 +18,27 @@ CHECKS.update({
  "C03": _e1("For every enumerated DAG x edge volumes x heterogeneous cluster x shipped pairing (all static assignments) x 1-2 workflows x <=1/2 delayed tasks, each task's recorded start is checked against its predecessors' finishes and the exact expected start max(allocation, arrivals)."),
  "C04": _e1("Every run that returns, over contention/buffer/plan scopes x shipped and adversarial algorithms x tie promotions x delays, has each observation observed once, each ingest/workflow task activated exactly once, a quiescent final state and a task table with one row per executed task (FULL-mode on a conformance subset)."),
  "C05": _e1("Every configuration of the buffer/plan/batch/contention scopes that satisfies the feasibility predicate is run under the serial-bound horizon; a crash or a horizon hit is a violation classified by crash site / stuck-state class."),
- "C06": _e1("All (comp, data, cpu, bw, delay, unit) tuples of the stated ranges through the real allocate_task_to_cluster/do_work, all ingest durations, observed-table monotonicity, plus the per-task equation on every run of the C03 scopes.", engine="E3+E1",
+ "C06": _e1("All (comp, data, cpu, bw, delay, unit) tuples of the stated ranges through the real allocate_task_to_cluster/do_work, all ingest durations, observed-table monotonicity, two-step histories (same task first on a same-id machine of another speed/unit in the same process), plus the per-task equation on every run of the C03 scopes.", engine="E3+E1",
             technique="exhaustive finite-domain enumeration of the real task/cluster component against a reference formula, plus stateless exploration of simulation trajectories"),
  "C07": _e1("Ledger reference model compared with both tiers' free space after every event / at every timestep boundary over buffer-size scopes on both sides of the tiering threshold, overlapping observations, unit variants; over-rate configurations must raise."),
  "C08": _e1("Every observation start in plan/buffer/contention scopes is checked against the state at that moment (arrays, free machines, ingest limit, hot and cold room), array use and ingest pool are bounded after every event, ingest holds exactly demand x duration, on-time start when idle."),
- "C09": _e1("Reservation ledger checked after every event for every batch configuration (M 2-4, partitions 1-3, min 1-2, per-observation splits, 2-3 competing observations) incl. tie promotions; adversarial batch algorithm for the exclusivity clauses."),
- "C17": _e1("ALL task->machine assignments of catalogue DAGs on 2-3 heterogeneous machines under ingest/workflow contention and delays: every activation's machine equals the planned one; vacuity guard requires runs in which a task waited for its planned machine while another was free."),
+ "C09": _e1("Reservation ledger checked after every event for every batch configuration (M 2-4, partitions 1-3, min 1-2, per-observation splits, 2-3 competing observations) incl. tie promotions, reservations taken and released in sequence, and fresh runs after an abandoned run of the same process; adversarial batch algorithm for the exclusivity clauses."),
+ "C17": _e1("ALL task->machine assignments of catalogue DAGs on 2-3 heterogeneous machines under ingest/workflow contention and delays: every activation's machine equals the planned one, also when ONE policy object drives two simulations with different plans (all ordered pairs of assignments of small workflows); vacuity guard requires runs in which a task waited for its planned machine while another was free."),
  "C19": _e1("The five queries are evaluated after every event of every explored run and in every state of the cluster-history BFS, and compared with independently probed truth.", engine="E1+E2",
             technique="stateless exploration of simulation trajectories with a truth oracle after every event, plus explicit-state BFS over cluster operation histories"),
 })
 CHECKS.update({
- "C10": _e1("The explorer owns set-iteration order through Task.__hash__: every permutation (<=120) of the hash order of a case's tasks is executed and all boundary trajectories, task tables and call logs must coincide; first/last permutation and a back-to-back repeat also in FULL mode (tables, event log); the seam is bound to the interpreter by separate-process runs under 8/64 real PYTHONHASHSEED values that must reproduce the enumerated output.",
+ "C10": _e1("The explorer owns set-iteration order through Task.__hash__: every permutation (<=120) of the hash order of a case's tasks is executed and all boundary trajectories, task tables and call logs must coincide; first/last permutation and a back-to-back repeat also in FULL mode (tables, event log); the seam is bound to the interpreter by separate-process runs under 8/64 real PYTHONHASHSEED values that must reproduce the enumerated output; the output of a case run right after other simulations of the same process (complete on other machine speeds, abandoned) must equal its output alone.",
             technique="exhaustive enumeration of set-iteration orders (hash permutations) on the real simulation, conformance-checked against separate interpreter processes with real hash seeds"),
  "C11": _e1("For every pause point k and every bounded split of the remainder, start(k);resume(..) is executed on the real Simulation with the real Monitor and compared (trajectory, per-timestep table, task table, event log) with one uninterrupted run; double start / early resume must raise and change nothing.",
             technique="exhaustive enumeration of pause/resume histories on the real simulation against an uninterrupted reference run"),
  "C12": _e1("With the real Monitor, every row t of the per-timestep table of every explored run is compared with the state probed at the beginning of timestep t, and the row count with the number of instants simulated."),
- "C13": _e1("With the real Monitor, the event log of every explored run (and of start(k);resume(T) for every k on a subset) is compared with the life-cycle transitions the harness itself observed: exactly once, time stamp, causal order, duration."),
+ "C13": _e1("With the real Monitor, the event log of every explored run (and of start(k);resume(T) for every k on a subset) is compared with the life-cycle transitions the harness itself observed: exactly once, time stamp, causal order, duration; the same oracle over much wider sets with the real Monitor loop and real collate_events but without the per-step dataframes (log compared with the full mode), including every buffer-scope history in which a workflow ends during a tier move."),
  "C14": _e1("All labelled DAGs up to 4 (quick) / 5 (thorough) nodes with shuffled non-contiguous ids, data-demand and volume variants, two name/clock pairs are planned by the real Planner/BatchPlanning and compared with the workflow JSON.", engine="E3",
             technique="exhaustive finite-domain enumeration (all labelled DAGs up to a size) against a reference"),
- "C15": _e1("Every (distribution, degree, probability, seed, runtime) of the stated ranges through the real DelayModel, and every delay vector in {0,1,2}^n injected into small simulations: never fails, never shortens, identity cases, deterministic, flagged and reported.", engine="E3+E1",
+ "C15": _e1("Every (distribution, degree, probability, seed, runtime) of the stated ranges through the real DelayModel, and every delay vector in {0,1,2}^n injected into small simulations: never fails, never shortens, identity cases, deterministic also after an earlier call that differs in one argument (every two-call history from a freshly executed private copy of the module), flagged and reported (DAGs incl. unequal parallel branches).", engine="E3+E1",
             technique="exhaustive finite-domain enumeration of DelayModel.generate_delay plus exhaustive delay-vector injection into the real simulation"),
- "C16": _e1("Every unit spelling/factor x base configuration tuple is parsed by the three real Config.parse_* methods in seconds and in the unit and compared quantity by quantity, including cross-section invariants.", engine="E3",
+ "C16": _e1("Every unit spelling/factor x base configuration tuple is parsed by the three real Config.parse_* methods in seconds and in the unit and compared quantity by quantity, including cross-section invariants, in five load/parse orders; small whole-multiple configurations are SIMULATED in seconds and in the unit and task runtimes / ingest durations in seconds and ingested volumes must agree.", engine="E3+E1",
             technique="exhaustive finite-domain enumeration of configurations x units against the scaling law"),
  "C18": _e1("All sizes x both rates x destination capacities x move histories (single moves, round trips) on a real Buffer with the real move processes stepped instant by instant against the min-rate reference.", engine="E2",
             technique="explicit enumeration of move histories on the real Buffer with a lock-step reference model, checked after every timestep"),
